@@ -1,7 +1,9 @@
 //@unit c05_traverse props=C05,C06 widths=u32
 //@use prelude/head.rs
 
-// lrpar/src/lib/cpctplus.rs: traverse (nested in collect_repairs), which unfolds the merged repair histories of a
+// lrpar/src/lib/cpctplus.rs: how the search merges nodes and gets the repair sequences back out of a merged node:
+// PathFNode::eq / last_repair (which nodes count as one configuration), the merge closure of `recover` (folding one node's
+// history into another's) and traverse (nested in collect_repairs), which unfolds the merged repair histories of a
 // search node into repair sequences.  A history is a cactus of RepairMerge values (most recent first); a Merge carries
 // the histories of the nodes that were merged into this one.  Decides for C05 / C06: the sequences returned are exactly
 // the root-to-node readings of the history -- at a merge, either the node's own history extended by its repair, or the
@@ -62,8 +64,16 @@ pub open spec fn list_is(cs: Seq<Cactus>, a: Alts) -> bool decreases a {
 pub open spec fn node_v(x: &RepairMerge) -> Node {
     match x { RepairMerge::Repair(r) => Node::Repair(*r), RepairMerge::Merge(r, a) => Node::Merge(*r, Box::new(a.v())), RepairMerge::Terminator => Node::Terminator }
 }
+impl AltCactus {
+    #[verifier::external_body] pub fn new() -> (r: AltCactus) ensures r.v() == Alts::Nil { unimplemented!() }
+    // Cactus::child: a new node above this one (vals() yields it first)
+    #[verifier::external_body] pub fn child(&self, c: Cactus) -> (r: AltCactus) ensures r.v() == Alts::Cons(Box::new(c.v()), Box::new(self.v())) { unimplemented!() }
+}
 impl Cactus {
     pub uninterp spec fn v(&self) -> Hist;
+    #[verifier::external_body] pub fn child(&self, x: RepairMerge) -> (r: Cactus) ensures r.v() == Hist::Cons(node_v(&x), Box::new(self.v())) { unimplemented!() }
+    // Cactus == Cactus (cactus crate, with the derived PartialEq of RepairMerge): equal only if the histories are the same
+    #[verifier::external_body] pub fn eq_(&self, o: &Cactus) -> (r: bool) ensures r ==> self.v() == o.v() { unimplemented!() }
     // `rm.val().unwrap()`: panics on an empty cactus
     #[verifier::external_body]
     pub fn val_unwrap(&self) -> (r: &RepairMerge)
@@ -247,6 +257,122 @@ fn traverse(finish_by: Instant, rm: &Cactus) -> (r: Option<Vec<Vec<Repair>>>)
         //@probe
         let pc = moved_out(&sub_, qi_);
     //@end
+    //@endbody
+}
+
+// ---- the merge closure handed to dijkstra by `recover`: fold node `new` into the compatible node `old` ----
+#[verifier::external_body] pub struct PStack { _x: usize }
+pub struct PathFNode { pub pstack: PStack, pub laidx: usize, pub repairs: Cactus, pub cf: u16 }
+pub open spec fn last_of(h: Hist) -> Option<Repair> {
+    match h { Hist::Cons(Node::Repair(r), _) => Some(r), Hist::Cons(Node::Merge(r, _), _) => Some(r), _ => None }
+}
+//@ctx merge_nodes: both nodes are ones the search builds, and `old` is not the start node (dijkstra pops the start node before it asks for any neighbour, so an occupied entry is always a neighbour, which has at least one repair)
+fn merge_nodes(oldn: &mut PathFNode, new: PathFNode)   // (`old` is a Verus keyword: the closure's parameter is renamed)
+    requires wf(old(oldn).repairs.v()), !at_terminator(old(oldn).repairs.v()), wf(new.repairs.v()),
+    ensures
+        wf(final(oldn).repairs.v()) && !at_terminator(final(oldn).repairs.v()), // OBL: C05.merge.history_stays_well_formed
+        forall|s: Seq<Repair>| reading(final(oldn).repairs.v(), s) <==> (reading(old(oldn).repairs.v(), s) || reading(new.repairs.v(), s)), // OBL: C05.merge.readings_of_the_merged_node_are_those_of_both_nodes C06.merge.readings_of_the_merged_node_are_those_of_both_nodes
+        last_of(final(oldn).repairs.v()) == last_of(old(oldn).repairs.v()) && *final(oldn).repairs.v()->Cons_1 == *old(oldn).repairs.v()->Cons_1, // OBL: C05.merge.last_repair_and_earlier_history_of_the_kept_node_unchanged
+        final(oldn).laidx == old(oldn).laidx && final(oldn).cf == old(oldn).cf && final(oldn).pstack == old(oldn).pstack, // OBL: C05.merge.configuration_and_cost_of_the_kept_node_unchanged
+{
+    //@probe
+    //@body file=lrpar/src/lib/cpctplus.rs fn=recover block=`^\s*if old\.repairs == new\.repairs \{` end=`^\s*old\.repairs = old\.repairs\.parent\(\)\.unwrap\(\)\.child\(merge\);`
+    //@rule n=* `\bold\.repairs` => `oldn.repairs`
+    //@rule n=1 `if oldn\.repairs == new\.repairs \{` => `if oldn.repairs.eq_(&new.repairs) {`
+    //@rule n=1 `match \*oldn\.repairs\.val\(\)\.unwrap\(\) \{` => `match oldn.repairs.val_unwrap() {`
+    //@rule n=1 `RepairMerge::Repair\(r\) => \{` => `RepairMerge::Repair(r_) => { let r = *r_;`
+    //@rule n=1 `RepairMerge::Merge\(r, ref v\) => RepairMerge::Merge\(r, ` => `RepairMerge::Merge(r_, v) => RepairMerge::Merge(*r_, `
+    //@rule n=* `Cactus::new\(\)\.child\(new\.repairs\)` => `AltCactus::new().child(new.repairs)`
+    //@rule n=1 `oldn\.repairs = oldn\.repairs\.parent\(\)\.unwrap\(\)\.child\(merge\);` => `oldn.repairs = oldn.repairs.parent_unwrap().child(merge);`
+    //@endbody
+    proof { reveal_with_fuel(reading_alts, 3); reveal_with_fuel(wf_alts, 3); reveal_with_fuel(reading, 2); reveal_with_fuel(wf, 2);
+        let h0 = old(oldn).repairs.v(); let h1 = oldn.repairs.v();
+        assert(h0 is Cons);
+        assert(h1 is Cons);
+        assert(h1->Cons_0 is Merge);
+        assert(wf(*h1->Cons_1));
+        assert(wf_alts(*h1->Cons_0->Merge_1));
+        assert(wf(h1));
+    }
+}
+
+// ---- which nodes the search treats as the same configuration: PathFNode::eq, last_repair ----
+impl PStack {
+    pub uninterp spec fn v(&self) -> Seq<StIdx<$T>>;
+    // Cactus<StIdx> != Cactus<StIdx> (cactus crate): compares the stacks value by value
+    #[verifier::external_body] pub fn ne_(&self, o: &PStack) -> (r: bool) ensures r == (self.v() != o.v()) { unimplemented!() }
+}
+pub open spec fn nodes(h: Hist) -> Seq<Node> decreases h { match h { Hist::Nil => Seq::empty(), Hist::Cons(n, p) => seq![n] + nodes(*p) } }
+impl Cactus {
+    // dialect rule 5: `for r in c.vals()` over the list of the history's values, most recent first
+    #[verifier::external_body] pub fn vals_vec(&self) -> (r: &Vec<RepairMerge>)
+        ensures r@.len() == nodes(self.v()).len(), forall|i: int| 0 <= i < r@.len() ==> node_v(#[trigger] &r@[i]) == nodes(self.v())[i]
+    { unimplemented!() }
+}
+pub open spec fn is_shift_node(n: Node) -> bool { n matches Node::Repair(Repair::Shift) || n matches Node::Merge(Repair::Shift, _) }
+// the number of shifts a history ends with
+pub open spec fn lead(ns: Seq<Node>, i: int) -> int decreases ns.len() - i {
+    if 0 <= i < ns.len() && is_shift_node(ns[i]) { 1 + lead(ns, i + 1) } else { 0 }
+}
+pub open spec fn ends_in_delete(h: Hist) -> bool { last_of(h) == Some(Repair::Delete) }
+// the search treats two nodes as one configuration when they have the same stack and position, agree on whether the last
+// repair was a delete (no insert may follow a delete) and end in the same number of shifts (the success criterion)
+pub open spec fn compatible(a: &PathFNode, b: &PathFNode) -> bool {
+    a.laidx == b.laidx && a.pstack.v() == b.pstack.v() && ends_in_delete(a.repairs.v()) == ends_in_delete(b.repairs.v())
+        && lead(nodes(a.repairs.v()), 0) == lead(nodes(b.repairs.v()), 0)
+}
+//@ctx num_shifts: a history is shorter than i32::MAX (the counter `n` is an i32 by default; a history has at most one value per repair made)
+fn num_shifts(c: &Cactus) -> (n: i32)
+    requires nodes(c.v()).len() < i32::MAX,
+    ensures n == lead(nodes(c.v()), 0), // OBL: C05.eq.trailing_shifts_counted_from_the_most_recent_repair
+{
+    //@probe
+    //@body file=lrpar/src/lib/cpctplus.rs fn=eq block=`let num_shifts = \|c: &Cactus<RepairMerge<StorageT>>\| \{` through=brace
+    //@rule n=1 `^\s*let num_shifts = \|c: &Cactus<RepairMerge<\$T>>\| \{\n` => ``
+    //@rule n=1 `^(\s*)\};\s*$` => ``
+    //@rule n=1 `let mut n = 0;` => `let mut n: i32 = 0;`
+    //@rule n=1 `^(\s*)for r in c\.vals\(\) \{$` =>>
+    let vs_ = c.vals_vec();
+    let ghost ns_ = nodes(c.v());
+    let mut ri_: usize = 0;
+    while ri_ < vs_.len()
+        invariant_except_break ri_ <= vs_@.len(), vs_@.len() == ns_.len(), ns_.len() < i32::MAX, n == ri_,
+            forall|i: int| 0 <= i < vs_@.len() ==> node_v(#[trigger] &vs_@[i]) == ns_[i],
+            lead(ns_, 0) == n + lead(ns_, ri_ as int), // OBL: C05.eq.trailing_shifts_counted_from_the_most_recent_repair.scan
+        ensures n == lead(ns_, 0),
+        decreases vs_@.len() - ri_,
+    {
+        //@probe
+        let r = &vs_[ri_];
+        ri_ += 1;
+    //@end
+    //@rule n=1 `match \*r \{` => `match r {`
+    //@endbody
+}
+fn last_repair(this: &PathFNode) -> (r: Option<Repair>)
+    requires this.repairs.v() is Cons,
+    ensures r == last_of(this.repairs.v()), // OBL: C05.eq.last_repair_is_the_most_recent_one
+{
+    //@probe
+    //@body file=lrpar/src/lib/cpctplus.rs fn=last_repair
+    //@rule n=1 `match \*self\.repairs\.val\(\)\.unwrap\(\) \{` => `match this.repairs.val_unwrap() {`
+    //@rule n=1 `RepairMerge::Repair\(r\) => Some\(r\),` => `RepairMerge::Repair(r) => Some(*r),`
+    //@rule n=1 `RepairMerge::Merge\(x, _\) => Some\(x\),` => `RepairMerge::Merge(x, _) => Some(*x),`
+    //@endbody
+}
+//@ctx eq: both nodes have a history (every node's history ends in the Terminator value) shorter than i32::MAX
+fn eq(this: &PathFNode, other: &PathFNode) -> (r: bool)
+    requires this.repairs.v() is Cons, other.repairs.v() is Cons, nodes(this.repairs.v()).len() < i32::MAX, nodes(other.repairs.v()).len() < i32::MAX,
+    ensures r == compatible(this, other), // OBL: C05.eq.nodes_are_merged_only_when_their_configurations_are_compatible C06.eq.nodes_are_merged_only_when_their_configurations_are_compatible
+{
+    //@probe
+    //@body file=lrpar/src/lib/cpctplus.rs fn=eq
+    //@cut n=1 `let num_shifts = \|c: &Cactus<RepairMerge<\$T>>\| \{` =>>
+        // (the closure num_shifts is the function of that name above)
+    //@end
+    //@rule n=* `\bself\.` => `this.`
+    //@rule n=1 `this\.pstack != other\.pstack` => `this.pstack.ne_(&other.pstack)`
+    //@rule n=1 `match \(this\.last_repair\(\), other\.last_repair\(\)\) \{` => `match (last_repair(this), last_repair(other)) {`
     //@endbody
 }
 //@use prelude/tail.rs
